@@ -28,6 +28,17 @@ def artefacts(op, res):
     return out
 
 
+def improved(res):
+    """Did the run optimise anything (printed totals differ)?"""
+    import re
+    t = {}
+    for k, rx in (("g0", r"Estimated initial gas: (-?\d+)"), ("g1", r"Estimated gas optimized: (-?\d+)"),
+                  ("n0", r"Initial number of instructions: (-?\d+)"), ("n1", r"Final number of instructions: (-?\d+)")):
+        m = re.search(rx, res["stdout"])
+        t[k] = m.group(1) if m else None
+    return t["g0"] != t["g1"] or t["n0"] != t["n1"]
+
+
 def main():
     from gsim.core import seams, procs, pipe
     seams.load_repo()
@@ -38,7 +49,7 @@ def main():
         if st != "ok":
             print(json.dumps({"status": st}))
         else:
-            print(json.dumps({"status": "ok", "art": artefacts(op, res), "sim_s": res["sim_time"]}))
+            print(json.dumps({"status": "ok", "art": artefacts(op, res), "sim_s": res["sim_time"], "improved": improved(res)}))
         sys.stdout.flush()
 
 
